@@ -7,7 +7,7 @@ patch=$(realpath "$1"); id=$2; shift 2
 wt=$(mktemp -d /tmp/wt_XXXXXX); rmdir "$wt"
 git -C /repo worktree add -q --detach "$wt" HEAD || exit 3
 trap 'git -C /repo worktree remove --force "$wt" >/dev/null 2>&1; rm -rf "$wt" /tmp/ev_$$' EXIT
-git -C "$wt" apply "$patch" || { echo "APPLY FAILED $patch"; exit 3; }
+git -C "$wt" apply "$patch" 2>/dev/null || git -C "$wt" apply --3way "$patch" 2>/dev/null || { echo "APPLY FAILED $patch"; exit 3; }
 out=/tmp/mutwt_${id}_$$.out
 ( cd /verif && VERIF_REPO="$wt" VERIF_EVIDENCE_DIR=/tmp/ev_$$ ./check "$id" "$@" ) > $out 2>&1; rc=$?
 echo "$(basename $patch) $id rc=$rc violation_lines=$(grep -c '^VIOLATION' $out)"
